@@ -51,6 +51,7 @@ func (nopLogger) Printf(string, ...any) {}
 type canary struct {
 	mu   sync.Mutex
 	lags []lagSample
+	cur  [nCanaries]atomic.Int64 // start (UnixNano) of the tick each canary is in right now
 	stop chan struct{}
 }
 
@@ -62,16 +63,20 @@ type lagSample struct {
 func startCanary() *canary {
 	c := &canary{stop: make(chan struct{})}
 	for k := 0; k < nCanaries; k++ {
-		go c.run()
+		go c.run(k)
 	}
 	return c
 }
 
-func (c *canary) run() {
+const tick = 5 * time.Millisecond
+
+// run: the canary allocates a timer per tick on purpose, so that it is held up by
+// the same things a caller is (scheduler, GC start / stop-the-world, overload).
+func (c *canary) run(k int) {
 	{
-		const tick = 5 * time.Millisecond
 		for {
 			t0 := time.Now()
+			c.cur[k].Store(t0.UnixNano())
 			select {
 			case <-c.stop:
 				return
@@ -107,6 +112,15 @@ func (c *canary) maxLag(from, to time.Time) time.Duration {
 		}
 		if s.lag > m {
 			m = s.lag
+		}
+	}
+	// a canary that is held up right now has not delivered its sample yet
+	now := time.Now()
+	for k := range c.cur {
+		if t0 := c.cur[k].Load(); t0 != 0 && t0 <= to.UnixNano() {
+			if lag := now.Sub(time.Unix(0, t0)) - tick; lag > m {
+				m = lag
+			}
 		}
 	}
 	return m
@@ -233,6 +247,8 @@ func classify(srv *tagsrv.Server, id string, resp *fasthttp.Response, err error)
 	}
 	return "unexpected-error", err.Error()
 }
+
+var stackDumps atomic.Int32
 
 type lateCall struct {
 	ID       string
@@ -361,14 +377,14 @@ watch:
 					lc := &lateCall{ID: s.id, Deadline: s.deadline, Caller: g}
 					lateBySlot[g] = lc
 					res.late = append(res.late, lc)
-					if res.lateStacks == "" {
-						res.lateStacks = mon.Stacks()
-					}
 				}
 				pendingLate++
 				if now.Sub(s.deadline) > minStall {
-					if lc := lateBySlot[g]; lc != nil && lc.ID == s.id {
+					if lc := lateBySlot[g]; lc != nil && lc.ID == s.id && !lc.Blocked {
 						lc.Blocked = true
+						if res.lateStacks == "" && stackDumps.Add(1) <= 5 {
+							res.lateStacks = mon.Stacks() // (stops the world: only for blocked calls, a few per run)
+						}
 					}
 				} else {
 					allHeldLongEnough = false
@@ -486,7 +502,7 @@ func TestC38(t *testing.T) {
 				return
 			}
 			r.Violation(i, "late-return", fmt.Sprintf("%s: call %s %s (slack %v; worst canary wake-up delay in that window %v)", desc, id, how, slack, lag),
-				map[string]any{"scenario": desc, "id": id, "deadline": deadline, "returned": returned, "blocked_until_stall_released": blocked, "call": byID[id], "stacks_when_first_found_blocked": res.lateStacks})
+				map[string]any{"scenario": desc, "id": id, "deadline": deadline, "returned": returned, "blocked_until_stall_released": blocked, "call": byID[id], "stacks_when_blocked_3s_past_deadline": res.lateStacks})
 		}
 		for _, lc := range res.late {
 			c := byID[lc.ID]
